@@ -14,7 +14,7 @@ TECHNIQUE = "runtime monitoring: differential oracle (forward vs reverse vs fini
 RULE = ("cases = AD entry point (ad, ad_nosr, ad_norot, ad_nosr_norot, 2-RDM) x walker type x closed/open shell x sampler shape x observable "
         "(symmetric and non-symmetric, spin-dependent) x seed; non-trivial = derivative above 1e-6 in magnitude and finite-difference ladder "
         "consistent (no discontinuity detected)")
-MIN_NONTRIVIAL = {"quick": 6, "thorough": 40}
+MIN_NONTRIVIAL = {"quick": 6, "thorough": 28}
 TIMEOUT = {"quick": 3600, "thorough": 14400}
 ASSUMPTIONS = ["the estimator is piecewise smooth (comb indices, clipping): samples whose finite difference diverges like 1/eps are classified as "
                "discontinuities and excluded; more than 20 % excluded makes the run inconclusive",
